@@ -188,3 +188,43 @@ theorem C12_rpc_path_is_translated :
     Gen.rpcPathShapeChecked = true := ⟨rfl, rfl, rfl⟩
 
 end Anemo
+
+namespace Anemo
+
+/-- **No open is ever refused while at most `max` streams are simultaneously open** - over every history
+of opens and closes, of any length, where a close is the end of a stream however it ended (completed,
+abandoned before, while or after transmission, timed out): abandoned RPCs count exactly like completed
+ones, none of them keeps credit, so a later RPC is never blocked by earlier abandoned ones. -/
+theorem C12_never_refused (ops : List Bool) (c : Credit) (hc : c.open_ ≤ c.max)
+    (hbal : ∀ k, (ops.take k).count false ≤ c.open_ + (ops.take k).count true)
+    (hcap : ∀ k, c.open_ + (ops.take k).count true ≤ c.max + (ops.take k).count false) :
+    ∃ c', Credit.runOps ops c = some c' := by
+  induction ops generalizing c with
+  | nil => exact ⟨c, rfl⟩
+  | cons op t ih =>
+    cases op with
+    | true =>
+      have h1 := hcap 1
+      simp at h1
+      have hlt : c.open_ < c.max := by omega
+      simp only [Credit.runOps, Credit.openStream, if_pos hlt]
+      apply ih { c with open_ := c.open_ + 1 } (by simp; omega)
+      · intro k; have := hbal (k + 1); simp [List.take_succ_cons] at this ⊢; omega
+      · intro k; have := hcap (k + 1); simp [List.take_succ_cons] at this ⊢; omega
+    | false =>
+      have h1 := hbal 1
+      simp at h1
+      simp only [Credit.runOps, Credit.closeStream]
+      apply ih { c with open_ := c.open_ - 1 } (by simp; omega)
+      · intro k; have := hbal (k + 1); simp [List.take_succ_cons] at this ⊢; omega
+      · intro k; have := hcap (k + 1); simp [List.take_succ_cons] at this ⊢; omega
+
+/-- the converse, so the hypothesis is exactly the right one: an open IS refused when `max` streams are
+open (a leaked stream - one that never closes - would therefore eventually block everybody) -/
+theorem C12_refused_at_capacity (t : List Bool) (c : Credit) (h : c.open_ = c.max) :
+    Credit.runOps (true :: t) c = none := by
+  simp [Credit.runOps, Credit.openStream, h]
+
+example : Credit.runOps [true, true, false, true, false, false, true] ⟨2, 0⟩ = some ⟨2, 1⟩ := by rfl
+example : Credit.runOps [true, true, true] ⟨2, 0⟩ = none := by rfl
+end Anemo
